@@ -250,9 +250,18 @@ def _omen_reader_strip(ctx, rule):
     return c07.r5_strip_discipline(ctx, rule, only=c11._OMEN_READERS, floor=4)
 
 
+def _shared_rule(mod, name, **kw):
+    def run(ctx, rule):
+        import importlib
+        return getattr(importlib.import_module('sa.props.' + mod), name)(ctx, rule, **kw)
+    return run
+
+
 def rules(tier):
     return [('C18.R1', r1_domain_guards), ('C18.R1b', r1b_recursive_count), ('C18.R2', r2_probability),
-            ('C18.R3', r3_writers_complete), ('C18.R4', c11.r3_cp_count), ('C18.R5', c11.r5_length_domain), ('C18.R6', _passes), ('C18.R7', c11.min_length_resolution), ('C18.R8', _prune), ('C18.R9', _cursor), ('C18.R10', r10_keyspace_stateless), ('C18.R11', _window_slices), ('C18.R12', _omen_reader_strip)]
+            ('C18.R3', r3_writers_complete), ('C18.R4', c11.r3_cp_count), ('C18.R5', c11.r5_length_domain), ('C18.R6', _passes), ('C18.R7', c11.min_length_resolution), ('C18.R8', _prune), ('C18.R9', _cursor), ('C18.R10', r10_keyspace_stateless), ('C18.R11', _window_slices), ('C18.R12', _omen_reader_strip),
+            # C18-ca: the guesser reads the n-gram size under a key the trainer never writes (with a fallback)
+            ('C18.R13', _shared_rule('c10', 'r20_omen_config_keys'))]
 
 
 META = {
